@@ -12,37 +12,32 @@
 (*   equal vol (L z) + drift for the rational Cholesky rows of the case.   *)
 (***************************************************************************)
 EXTENDS PamsFundLaw, TLC, Json, IOUtils
-VARIABLES tid, done
+VARIABLES tid, l, gU, lenU, vd
+vars == <<tid, l, gU, lenU, vd>>
 TraceLog_ == ndJsonDeserialize(IOEnv.TRACE_FILE)
 N == Len(TraceLog_)
-TInit == tid \in 1..N /\ done = FALSE
-TNext == ~done /\ done' = TRUE /\ tid' = tid
-TSpec == TInit /\ [][TNext]_<<tid, done>>
+H == TraceLog_[tid]
 AbsD(x, y) == IF x > y THEN x - y ELSE y - x
 
 \* ---- histories: fold over events with state <<g, L, verdict>>
 RECURSIVE GenLen(_, _, _, _)
 GenLen(g, L, t, ch) == IF t < g THEN <<g, L>> ELSE GenLen(g + ch, g + 1 + ch, t, ch)
 StepH(st, e, ch, n) ==
-  LET g == st[1]  L == st[2]  vd == st[3]
+  LET g == st[1]  L == st[2]  vd0 == st[3]
       F(cur, cond, tag) == IF cur # "ok" THEN cur ELSE IF cond THEN "C12:" \o tag \o "@" \o ToString(n) ELSE "ok"
-      base == F(F(vd, ~e.pos, "not-positive"), ~e.init, "initial-value-changed") IN
+      base == F(F(vd0, ~e.pos, "not-positive"), ~e.init, "initial-value-changed") IN
   CASE e.k = "get" ->
          LET r == GenLen(g, L, e.t, ch) IN
          <<r[1], r[2], F(F(base, \E i \in 1..Len(e.chg) : e.chg[i][2] <= g, "past-altered-by-generation"),
                          e.out # "ok", "get-raised-" \o e.out)>>
     [] e.k = "chg" ->
-         <<e.t, L, F(F(base, Len(e.chg) > 0, "past-altered-by-parameter-change"), e.out # "ok", "change-raised-" \o e.out)>>
+         <<e.t, L, F(F(base, \E i \in 1..Len(e.chg) : e.chg[i][2] < e.t, "past-altered-by-parameter-change"), e.out # "ok", "change-raised-" \o e.out)>>
     [] e.k = "shock" ->
-         <<e.t, L, F(F(F(base, \E i \in 1..Len(e.chg) : e.chg[i] # <<e.m, e.t>>, "shock-altered-other-values"),
+         <<e.t, L, F(F(F(base, \E i \in 1..Len(e.chg) : e.chg[i][2] < e.t \/ (e.chg[i][2] = e.t /\ e.chg[i][1] # e.m), "past-altered-by-shock"),
                        ~e.lvl, "does-not-continue-from-changed-level"), e.out # "ok", "shock-raised-" \o e.out)>>
     [] e.k = "level" ->      \* zero volatility: the path is exactly level x exp(drift (u - t)) from the last change on
          <<g, L, F(base, ~e.lvl, "zero-volatility-closed-form")>>
     [] OTHER -> <<g, L, base>>
-RECURSIVE FoldH(_, _, _, _)
-FoldH(st, ev, ch, n) == IF n > Len(ev) THEN st ELSE FoldH(StepH(st, ev[n], ch, n), ev, ch, n + 1)
-VerdictHist(h) == FoldH(<<0, 1, "ok">>, h.ev, h.chunk, 1)[3]
-
 \* ---- algebraic cases
 BadCase(c) ==
   IF c.c = "ret" THEN
@@ -57,6 +52,15 @@ VerdictCases(h) ==
   LET bad == {i \in 1..Len(h.cs) : BadCase(h.cs[i]) # ""} IN
   IF bad = {} THEN "ok" ELSE LET i == CHOOSE x \in bad : \A y \in bad : x <= y IN "C12:" \o BadCase(h.cs[i]) \o "@" \o ToString(i)
 
-Verdict(h) == IF h.mode = "hist" THEN VerdictHist(h) ELSE VerdictCases(h)
-Report == done => PrintT(<<"VERDICT", tid, TRUE, [C12 |-> Verdict(TraceLog_[tid])]>>)
+\* one step per recorded operation (histories) or one step for a whole batch of cases
+TInit == tid \in 1..N /\ l = 1 /\ gU = 0 /\ lenU = 1 /\ vd = "ok"
+NEv == IF H.mode = "hist" THEN Len(H.ev) ELSE 1
+TNext ==
+  /\ l <= NEv /\ l' = l + 1 /\ tid' = tid
+  /\ IF H.mode = "hist"
+     THEN LET r == StepH(<<gU, lenU, vd>>, H.ev[l], H.chunk, l) IN gU' = r[1] /\ lenU' = r[2] /\ vd' = r[3]
+     ELSE gU' = gU /\ lenU' = lenU /\ vd' = VerdictCases(H)
+TSpec == TInit /\ [][TNext]_vars
+Done == l = NEv + 1
+Report == Done => PrintT(<<"VERDICT", tid, TRUE, [C12 |-> vd]>>)
 =============================================================================
